@@ -212,7 +212,8 @@ def branch(term) -> bool:
         c.pc.append(term if d else z3.Not(term))
         return d
     facts = c.facts()
-    r_true, _ = _check(facts, [term], FEAS_TIMEOUT_MS)
+    ft = c.limits.get('feas_timeout_ms', FEAS_TIMEOUT_MS)
+    r_true, _ = _check(facts, [term], ft)
     if r_true == 'unsat':
         d = False
         c.pos += 1
@@ -222,7 +223,7 @@ def branch(term) -> bool:
         return d
     if r_true == 'unknown':
         c.unknown_feas += 1
-    r_false, _ = _check(facts, [z3.Not(term)], FEAS_TIMEOUT_MS)
+    r_false, _ = _check(facts, [z3.Not(term)], ft)
     if r_false == 'unknown':
         c.unknown_feas += 1
     if r_false != 'unsat':
@@ -748,10 +749,11 @@ class BV:
 
 class R:
     """Exact real: num/den; concrete iff num is a Fraction (then den == 1)."""
-    __slots__ = ('n', 'd')
+    __slots__ = ('n', 'd', 'sq')
     __array_priority__ = 1000
 
     def __init__(self, n, d=ONE):
+        self.sq = None          # for r = |z|: the exact square |z|^2, so that abs(z)**2 needs no square-root variable
         if not _isz(n) and not isinstance(n, Fr):
             n = to_fr(n)
         if not _isz(d):
@@ -1154,7 +1156,12 @@ class C:
             return abs(self.re)
         if _is0(self.re):
             return abs(self.im)
-        return tf.sqrt(self.abs2())
+        sq = self.abs2()
+        r = tf.sqrt(sq)
+        if not r.concrete:
+            r = R(r.n, r.d)
+            r.sq = sq
+        return r
 
     def __pow__(self, o):
         if isinstance(o, R) and o.concrete and o.n.denominator == 1:
